@@ -677,6 +677,9 @@ class SecopClient(ProxyClient):
         # the last item is for the reply
         entry = [request, Event(), None]
         self.txq.put(entry, timeout=3)
+        if not self._running:
+            # disconnected meanwhile: nobody will treat the queue any more
+            entry[1].set()
         return entry
 
     def get_reply(self, entry):
